@@ -433,7 +433,7 @@ func init() {
 			}
 			s = append(s, xsens.NewMessage(0x30, nil)...)
 			ops := []cop{{kind: "receive"}, {kind: "rawmsg"}, {kind: "receive"}, {kind: "rawmsg"}}
-			c.emitClient("client10", s, []int{30000, 30000, 30000}, &portError{9}, false, nil, ops)
+			c.emitClient("client10", s, []int{30000, 30000, 30000}, &portError{code: 9}, false, nil, ops)
 		}
 	}
 }
